@@ -761,7 +761,11 @@ func (fl *Flow) ExplorePathsMarked(keep func(k VarKey, f Fact) bool, mark func(e
 		if mark != nil {
 			if name := mark(it.e); name != "" {
 				out = out.clone()
-				out[VarKey{Path: "mark:" + name}] = Fact{Bool: 1}
+				if strings.HasPrefix(name, "-") {
+					delete(out, VarKey{Path: "mark:" + name[1:]})
+				} else {
+					out[VarKey{Path: "mark:" + name}] = Fact{Bool: 1}
+				}
 			}
 		}
 		for _, ed := range it.e.Succ {
